@@ -39,6 +39,18 @@ SCHEDULE
 
 def kw_text(k):
     n = k["kw"]
+    if n == "WELPI":
+        return "WELPI\n %s %d /\n/\n" % (k["well"], k["v"])
+    if n == "WTEST":
+        return "WTEST\n %s %d P %d /\n/\n" % (k["well"], k["days"], k["n"])
+    if n == "WECON":
+        return "WECON\n %s %d /\n/\n" % (k["well"], k["orat"])
+    if n == "WGRUPCON":
+        return "WGRUPCON\n %s %s 1.0 OIL /\n/\n" % (k["well"], k["avail"])
+    if n == "COMPLUMP":
+        return "COMPLUMP\n %s 1* 1* %d %d %d /\n/\n" % (k["well"], k["k1"], k["k2"], k["n"])
+    if n == "GCONINJE":
+        return "GCONINJE\n %s WATER RATE %d /\n/\n" % (k["group"], k["rate"])
     if n == "GRUPTREE":
         return "GRUPTREE\n %s %s /\n/\n" % (k["child"], k["parent"])
     if n == "WELSPECS":
